@@ -506,6 +506,17 @@ def standin_aqt(tier, seed):
         want = refsim.ref_unitary(c, list(qs))
         if not refsim.equal_up_to_global_phase(U, want, atol=1e-6):
             fails.append(dict(args=dict(circuit=repr(c), payload=js[:400]), failed="aqt-payload-unitary", clause="AQT operation list is not the circuit's unitary (up to global phase)"))
+        # the package's own reader of operation lists (what the local stand-in for the service runs) gives the same meaning
+        from cirq_aqt.aqt_device import AQTSimulator
+
+        sim_ = AQTSimulator(num_qubits=n, simulate_ideal=True)
+        try:
+            sim_.generate_circuit_from_list(js)
+            back = cirq.Circuit(op for op in sim_.circuit.all_operations() if not cirq.is_measurement(op))
+            if not refsim.equal_up_to_global_phase(refsim.ref_unitary(back, list(qs)), want, atol=1e-6):
+                fails.append(dict(args=dict(circuit=repr(c), payload=js[:400], read_back=repr(back)[:600]), failed="aqt-payload-read-back", clause="AQTSimulator.generate_circuit_from_list reads the operation list as a circuit with a different unitary"))
+        except Exception as ex:
+            fails.append(dict(args=dict(circuit=repr(c), payload=js[:400]), failed="aqt-payload-read-back", clause=f"AQTSimulator.generate_circuit_from_list raised {ex!r}"))
         if len(fails) >= 3:
             break
     # samples come back as one column per line index: circuits that flip a chosen subset of (not necessarily contiguous) qubits
